@@ -18,7 +18,7 @@ NRUNS = {"quick": 4000, "thorough": 60000}
 
 
 def generate(rng, tier):
-    return worlds.gen_find_world(rng)
+    return worlds.gen_find_world(rng, moderate_noise=True)
 
 
 def execute(spec, ctx):
